@@ -764,14 +764,32 @@ static void do_write (void)
 	drv_bytes -= alloc_items * isz + 1 ; free (buf) ;
 }
 
+/* digest and length of what a handle's backing store holds right now (virtual I/O store, or the descriptor's file) */
+static uint64_t store_digest (HND *H)
+{	uint64_t hsh = 1469598103934665603ULL ;
+	if (H->route == R_VIO)
+	{	MEMFILE *mf = &files [H->fid] ;
+		for (long long i = 0 ; i < mf->len ; i++) { hsh ^= mf->data [i] ; hsh *= 1099511628211ULL ; }
+		return hsh ^ (uint64_t) mf->len ;
+		}
+	if ((H->route == R_FD || H->route == R_FDK || H->route == R_EMB) && H->dupfd >= 0)
+	{	unsigned char b [4096] ; long long off = 0 ; ssize_t r ;
+		while ((r = pread (H->dupfd, b, sizeof (b), off)) > 0) { for (ssize_t i = 0 ; i < r ; i++) { hsh ^= b [i] ; hsh *= 1099511628211ULL ; } off += r ; }
+		return hsh ^ (uint64_t) off ;
+		}
+	return 0 ;
+}
+
 static void do_seek (void)
 {	int h = (int) tokll (1) ; HND *H = &hnd [h] ; if (!H->sf) return ;
 	long long off = tokll (2) ; int wh = (int) tokll (3) ;
 	cur_call = "seek" ; cur_h = h ;
+	uint64_t d0 = H->mode != SFM_READ ? store_digest (H) : 0 ;
 	alarm (alarm_secs) ;
 	sf_count_t ret = sf_seek (H->sf, off, wh) ;
 	alarm (0) ;
-	ev_begin ("seek", h) ; ev_int ("off", off) ; ev_int ("wh", wh) ; ev_int ("ret", ret) ;
+	uint64_t d1 = H->mode != SFM_READ ? store_digest (H) : 0 ;
+	ev_begin ("seek", h) ; ev_int ("off", off) ; ev_int ("wh", wh) ; ev_int ("ret", ret) ; ev_int ("sc", d0 != d1) ;	/* sc : the store changed during the call */
 	ev_err (h) ; ev_state (h) ; ev_flen (h) ; ev_int ("io", io_count) ;
 	ev_end () ;
 }
